@@ -694,6 +694,44 @@ def rule_a12(repo):
                     'reduces the goal to, and the full check fails although every editing step succeeded' % (sk_t, nm, sk_m), gp.loc)
     return res
 
+def rule_a13(repo):
+    """The introduction tactic opens a goal A_1 --> .. --> A_n --> C into a block of one `assume` line per antecedent and a
+    gap for C; the `intros` step at the end of the block puts one implication back per assume line.  The line it stands
+    on still states the goal, so there must be as many assume lines as the goal has antecedents: the assume lines are
+    made from exactly the list the goal was taken apart into - repeated antecedents included (A --> A --> C comes out of
+    an ordinary `cases A` on A --> C).  A list with repetitions removed gives a block that proves A --> C under a line that
+    says A --> A --> C; the edit goes through (it is only computed, not compared) and every later full check fails."""
+    res = RuleResult('C13.A13', 'the introduction tactic makes one assume line per antecedent of the goal, repetitions included', floor=1)
+    f = repo.func('logic/tactic.py', 'intros.get_proof_term')
+    cfg = cfg_of(f.node)
+    comps = [c for c in ast.walk(f.node) if isinstance(c, (ast.ListComp, ast.GeneratorExp)) and len(c.generators) == 1 and isinstance(c.elt, ast.Call) and
+             (call_name(c.elt) or '').endswith('ProofTerm.assume') and c.elt.args and isinstance(c.generators[0].target, ast.Name) and
+             is_name(c.elt.args[0], c.generators[0].target.id)]
+    need(comps, 'intros.get_proof_term: the assume premises (ProofTerm.assume(A) for A in ..) not found')
+    for c in comps:
+        at = cfg.node_for(c)
+        need(at is not None, 'intros.get_proof_term: statement of the assume premises not found')
+        it = cfg.value_at(at, c.generators[0].iter)
+        while isinstance(it, ast.Call) and isinstance(it.func, ast.Name) and it.func.id in ('list', 'tuple') and len(it.args) == 1:
+            it = it.args[0]
+        verdict, why = None, ''
+        if isinstance(it, ast.Name):
+            defs = cfg.reaching_assignments(at, it.id)
+            if len(defs) == 1 and isinstance(defs[0].ast, ast.Assign) and isinstance(defs[0].ast.targets[0], (ast.Tuple, ast.List)) and \
+                    isinstance(defs[0].ast.value, ast.Call) and (call_name(defs[0].ast.value) or '').split('.')[-1] in ('strip_all_implies', 'strip_implies'):
+                verdict = True
+        if verdict is None:
+            losing = [x for x in ast.walk(it) if isinstance(x, ast.Call) and ((call_name(x) or '') in ('dict.fromkeys', 'set', 'frozenset') or
+                                                                           call_attr(x) in ('fromkeys',))]
+            if losing or isinstance(it, (ast.SetComp, ast.DictComp)):
+                verdict, why = False, src(it, 60)
+        need(verdict is not None, 'intros.get_proof_term: cannot tell where the list of assumed antecedents `%s` comes from' % src(it, 60))
+        res.add('logic/tactic.py :: intros.get_proof_term :: one-assume-per-antecedent', verdict,
+                'the assume lines are made from the antecedents as the goal was taken apart' if verdict else
+                'line %d makes the assume lines from `%s`, in which repeated antecedents occur once: for the goal A --> A --> C the block proves A --> C '
+                'under a line that states A --> A --> C, and the proof no longer checks in full' % (c.lineno, why), 'logic/tactic.py:%d' % c.lineno)
+    return res
+
 
 def rules(repo):
-    return [rule_a1(repo), rule_a2(repo), rule_a3(repo), rule_a4(repo), rule_a5(repo), rule_a6(repo), rule_a7(repo), rule_a8(repo), rule_a9(repo), rule_a10(repo), rule_a11(repo), rule_a12(repo)]
+    return [rule_a1(repo), rule_a2(repo), rule_a3(repo), rule_a4(repo), rule_a5(repo), rule_a6(repo), rule_a7(repo), rule_a8(repo), rule_a9(repo), rule_a10(repo), rule_a11(repo), rule_a12(repo), rule_a13(repo)]
